@@ -91,6 +91,10 @@ Inductive scen :=
         (post : list action) (order : list nat) (tb : nat)
 | SExpired (p : list phase)
 | SConc (nthreads : nat)
+| SConcGen (nthreads : nat)   (* as SConc, but the program was compiled (Compile) before the interpreter's first
+                                 *WithContext call: the bodies of its function literals were generated then, with
+                                 cancelChan false (Model.gen_canc): their plain send / receive operations do not see
+                                 the cancellation and those goroutines may be left *)
 | SSess (first_ctx : bool) (ld : loader) (c : construct).
 
 Definition y_outcomes (s : scen) : list (bool * list nat * nat) :=
@@ -113,6 +117,7 @@ Definition y_outcomes (s : scen) : list (bool * list nat * nat) :=
                             | _ => []
                             end) (seq 0 16)
   | SConc _ => []
+  | SConcGen _ => []
   | SSess _ _ _ => []
   end.
 
@@ -121,6 +126,9 @@ Definition y_ok0 (s : scen) (o : obs) : bool :=
   | SConc n =>
       (* C09_gate_partial / C09_ticks / C09_exits: whatever the schedule *)
       o_ret o && negb (o_many o) && (o_left o =? 0) && (List.length (o_after o) <=? n)
+  | SConcGen n =>
+      (* the exit clause of C09_gate_partial does not apply to threads stuck in Block false *)
+      o_ret o && negb (o_many o) && (o_left o <=? n) && (List.length (o_after o) <=? n)
   | _ => o_ret o && existsb (outcome_eqb o) (y_outcomes s)
   end.
 
@@ -142,7 +150,7 @@ Section C09g.
 (** the contract: the call returns the context's error; nobody executes more than the operation in
     flight; at most one visible effect per goroutine that was running; every goroutine exits *)
 Definition g_ok (s : scen) (o : obs) : bool :=
-  let n := match s with SPark _ _ _ _ _ _ _ => 1 | SExpired _ => 0 | SConc k => k | SSess _ _ _ => 1 end in
+  let n := match s with SPark _ _ _ _ _ _ _ => 1 | SExpired _ => 0 | SConc k => k | SConcGen k => k | SSess _ _ _ => 1 end in
   o_ret o && negb (o_many o) && (o_left o =? 0) && (List.length (o_after o) <=? n).
 
 End C09g.
